@@ -232,6 +232,14 @@ def check_model(m, acc, fam, k, only_interp=None):
         acc.n("traces")
         acc.n("transitions")
         try:
+            if ii % 6 == 2 and len(comps) > 1:
+                # a receiver with a past: something was assumed about a leaf, and the DERIVED model was then asked with a sub-proposition
+                # fixed. Neither call is on the receiver's own nodes, so the partial evaluation that follows must be what it is on a fresh one
+                cid = idof[comps[1 + (ii // 6) % (len(comps) - 1)]]
+                der = obj.assume({lids[0]: leaves[lids[0]][ii % 2]})
+                if not is_var(der):
+                    der.evaluate({cid: (ii // 2) % 2})
+                acc.n("transitions", 2)
             res = obj.evaluate_propositions(interp)
         except BaseException as e:
             acc.violation(None, case, {"what": "evaluate_propositions raised", "exc": repr(e), "model": show(m), "interpretation": repr(interp)})
@@ -255,6 +263,19 @@ def check_model(m, acc, fam, k, only_interp=None):
             acc.violation(None, case, {"what": "returned bounds do not contain the node's value under every completion", "model": show(m),
                                        "interpretation": repr(interp), "node": bad[0], "returned": bad[1], "reference_range_over_completions": bad[2]})
             continue
+        if ii % 7 == 3:
+            # the 'out' callable: applied to each node's bounds, nothing else changes
+            try:
+                o3, _ = bind(m)
+                res_out = o3.evaluate_propositions(dict(interp), out=lambda x: ("out", x.lower, x.upper))
+            except BaseException as e:
+                acc.violation(None, case, {"what": "evaluate_propositions(out=...) raised", "exc": repr(e), "model": show(m), "interpretation": repr(interp)})
+                continue
+            acc.n("transitions")
+            if {k_: ("out",) + tuple(v.as_tuple()) for k_, v in res.items()} != {k_: tuple(v) if v is not None else None for k_, v in res_out.items()}:
+                acc.violation(None, case, {"what": "evaluate_propositions(out=f) is not f applied to each node's bounds", "model": show(m),
+                                           "interpretation": repr(interp), "plain": {str(k_): v.as_tuple() for k_, v in res.items()}, "with_out": repr(res_out)[:400]})
+                continue
         top = res[idof[m]].as_tuple()
         n_unspec = sum(1 for c in choice if c is None or c[0] != c[1])
         acc.hist("deviations(non-total leaves)", n_unspec)
